@@ -134,3 +134,8 @@ add("C05", "exploration", "vh",
     "exhaustive differential exploration across three separately built binaries (default, no-fastpath, counters+pre-eval)",
     "About 4.8M (quick) cases - every program of eight spaces x 4 flag sets x 4 budgets, 23 operators called directly with every argument list of arity <=3|4 over boundary atoms in inline / heap / view representation under both cost models, sha256 of (1 n) for n=0..40 in every representation - are evaluated by three harness binaries built against clvmr with default features, no-fastpath, and counters+pre-eval (observe-only callback, run_program_with_counters); the per-case outcome digests (result, cost, error string, atom/pair/heap counts) must be byte-identical.",
     "The quick command builds three binaries (about 1-3 minutes when cold). The accumulator choice of the pre-hard-fork +/- slow path is scripted identically in all binaries (hook H4).")
+
+add("C10", "model_checking", "vh",
+    "exhaustive enumeration of operator argument lists against a reference cost model (RefCost), per-call conformance",
+    "30 generic operators with every argument list of small arity over a boundary alphabet (padded forms, 257..2100-byte operands), accumulator-growing/shrinking sequences, the repository's vectors and constructed argument lists for the BLS / secp / keccak / coinid operators, and sha256tree on every small tree in fresh / hash-consed / atom-shared form plus doubling to 2^15|2^19 shared leaves: under both cost models (and MALACHITE for the division family), in up to three atom representations, directly and inside run_program, the charged cost of every successful call must equal RefCost.",
+    "RefCost (harness/src/refcost.rs) is written from docs/cost-model.md, docs/sha256tree.md and the operators' documentation comments with its own copy of the constants; it is validated at every start-up against every operator vector in op-tests (v1 and v2). Where the markdown and the vectors disagree (logand/logior/logxor, +/- argument sizing) the vectors win and the evidence carries a documentation note.")
